@@ -47,13 +47,16 @@ def run(ctx, progs):
     ctx.explanation = EXPLANATION
     for r, t in (("FWD1", "forwarders end in the base slice impl"), ("OBS1", "observers never read start/items/capacity"),
                  ("ORD1", "std lexicographic comparison of iter()s"), ("HASH1", "len once + one element hash per iter() item"),
-                 ("DBG1", "debug_list().entries(self).finish()"), ("BASE1", "length tests first; operands are sub-slices of the contents")):
+                 ("DBG1", "debug_list().entries(self).finish()"), ("BASE1", "length tests first; operands are sub-slices of the contents"),
+                 ("BASE2", "each arm's pieces partition both sequences: whole segments or complementary [..k],[k..] pairs, in order"),
+                 ("BASE3", "split points are differences of first-segment lengths only")):
         ctx.rule(r, t)
     for cfg, prog in progs.items():
         fwd1(ctx, prog, cfg)
         obs1(ctx, prog, cfg)
         ord_hash_dbg(ctx, prog, cfg)
         base1(ctx, prog, cfg)
+        base2(ctx, prog, cfg)
 
 
 def fwd1(ctx, prog, cfg):
@@ -170,3 +173,106 @@ def base1(ctx, prog, cfg):
                           "a compared operand (`%s`) is not a sub-slice of as_slices() or of `other`" % mir.fmt(a, f)[:120],
                           "operand is a sub-slice of the contents", cfg)
         ctx.floor("BASE1", "slice comparisons in " + short, n, 2, cfg)
+
+
+def _piece(e):
+    """(which, side_index, kind, bound) for an operand of a slice comparison:
+    which in {'self','other'}, side_index in {'0','1'}, kind in full|to|from"""
+    e = mir.strip_casts(e)
+    # &{as_slices(X).k}  (whole slice, compared through core's &A == &B)
+    if isinstance(e, tuple) and e[0] == "ref" and isinstance(e[1], tuple) and e[1][0] == "local" and len(e[1]) > 2:
+        e = mir.strip_casts(e[1][2])
+    bound = None
+    kind = "full"
+    if isinstance(e, tuple) and e[0] == "call" and "Index<I>>::index" in str(e[1]) and len(e[2]) == 2:
+        rng = e[2][1]
+        base = mir.strip_casts(e[2][0])
+        if isinstance(rng, tuple) and rng[0] == "agg":
+            nm = rng[1].split("::")[-1]
+            flds = dict(rng[3])
+            if nm == "RangeFull":
+                kind = "full"
+            elif nm == "RangeTo":
+                kind, bound = "to", flds.get("end")
+            elif nm == "RangeFrom":
+                kind, bound = "from", flds.get("start")
+            else:
+                return None
+        else:
+            return None
+        e = base
+    if isinstance(e, tuple) and e[0] == "field" and e[2] in ("0", "1") and isinstance(e[1], tuple) and e[1][0] == "call" and e[1][1] == "CircularBuffer::as_slices":
+        arg = mir.strip_casts(e[1][2][0])
+        which = "self" if arg == ("param", 1) else ("other" if arg == ("param", 2) else None)
+        if which:
+            return (which, e[2], kind, bound)
+    return None
+
+
+def base2(ctx, prog, cfg):
+    """In buffer == buffer every arm compares pieces that *partition* both sequences: each of the
+    four segments (self.0, self.1, other.0, other.1) is used either whole or as the complementary
+    pair [..k], [k..] with one and the same k, in sequence order (BASE2); and every split point is
+    built from the lengths of first segments only (BASE3)."""
+    f = ctx.need_fn(prog, BASE_BUF, "BASE2")
+    if f is None:
+        return
+    from .. import guards as _g
+
+    G = _g.Guards(f)
+    arms = {}
+    for b, t in f.calls(False):
+        p = mir.callee_path(t) or ""
+        if "PartialEq" not in p or "Ord" in p:
+            continue
+        key = tuple(sorted((a[2] for a in G.facts_at(b) if a[0] == "is" and isinstance(a[1], tuple) and a[1][0] == "call" and "Ord>::cmp" in str(a[1][1]))))
+        if not key:
+            nots = sorted(a[2] for a in G.facts_at(b) if a[0] == "isnot" and isinstance(a[1], tuple) and a[1][0] == "call" and "Ord>::cmp" in str(a[1][1]))
+            key = ("not",) + tuple(nots)
+        args = [f.deep_simplify(a) for a in f.call_args(b)]
+        arms.setdefault(key, []).append((b, [_piece(a) for a in args]))
+    ctx.check(len(arms) == 3, "BASE2", f.short, "three arms", f.loc, "expected the three arms Less/Equal/Greater, found %d groups of comparisons" % len(arms),
+              "3 arms with %s comparisons" % [len(v) for v in arms.values()], cfg, nontrivial=False)
+    for key, comps in sorted(arms.items(), key=str):
+        comps.sort(key=lambda x: f.rpo(False).index(x[0]) if x[0] in f.rpo(False) else 0)
+        for side, pos in (("self", 0), ("other", 1)):
+            pieces = [c[1][pos] for c in comps]
+            site = "arm %s: %s pieces partition the sequence" % (key, side)
+            if any(p is None or p[0] != side for p in pieces):
+                ctx.violate("BASE2", f.short, site, short_loc(f, comps[0][0]),
+                            "an operand of a slice comparison is not a piece of `%s.as_slices()`" % side, cfg)
+                continue
+            want = []
+            ok = True
+            seq = [(p[1], p[2], p[3]) for p in pieces]
+            by = {"0": [x for x in seq if x[0] == "0"], "1": [x for x in seq if x[0] == "1"]}
+            order_ok = seq == by["0"] + by["1"]
+            for k in ("0", "1"):
+                ps = by[k]
+                if len(ps) == 1 and ps[0][1] == "full":
+                    continue
+                if len(ps) == 2 and ps[0][1] == "to" and ps[1][1] == "from" and ps[0][2] == ps[1][2] and ps[0][2] is not None:
+                    continue
+                ok = False
+            ctx.check(ok and order_ok, "BASE2", f.short, site, short_loc(f, comps[0][0]),
+                      "in one arm of buffer == buffer the compared pieces of `%s` are %s: they do not cover each segment exactly once "
+                      "(whole, or [..k] followed by [k..] with the same k) in sequence order — some elements are compared twice, "
+                      "never, or against the wrong partner" % (side, [(s, kd, mir.fmt(bd, f)[:40] if bd else None) for s, kd, bd in seq]),
+                      "pieces %s" % [(s, kd) for s, kd, _ in seq], cfg)
+            for (_, kd, bd) in seq:
+                if bd is None:
+                    continue
+                leaves_ok = True
+                for s in mir.walk(bd):
+                    if isinstance(s, tuple) and s and s[0] == "load":
+                        leaves_ok = False
+                    if isinstance(s, tuple) and s and s[0] == "pcall" and s[1] == "<[T]>::len":
+                        a = mir.strip_casts(s[2][0])
+                        if not (isinstance(a, tuple) and a[0] == "field" and a[2] == "0"):
+                            leaves_ok = False
+                    if isinstance(s, tuple) and s and s[0] == "binop" and s[1] not in ("Sub",):
+                        leaves_ok = False
+                ctx.check(leaves_ok, "BASE3", f.short, "arm %s: split point `%s`" % (key, mir.fmt(bd, f)[:60]), short_loc(f, comps[0][0]),
+                          "a split point of the segment alignment is computed from something other than the lengths of the two first "
+                          "segments (`%s`): where the segments meet does not depend on the total length or on anything else" % mir.fmt(bd, f),
+                          "built from len(a_left), len(b_left) by subtraction only", cfg)
